@@ -113,6 +113,10 @@ def main():
         sys.stdout.flush()
         if not res.get("caught"):
             bad += 1
+    # the runs above regenerated lean/UnytModel/Generated/* from the patched trees: restore the
+    # tables of the unchanged tree
+    subprocess.run([PY, "-W", "ignore", os.path.join(VERIF, "tools", "extract_tables.py")], cwd=VERIF,
+                   env=dict(os.environ, UNYT_REPO="/repo", PYTHONPATH="/repo"), capture_output=True)
     sys.exit(1 if bad else 0)
 
 
